@@ -9,7 +9,7 @@
 //
 // For every value class T in {i64, f64, v128, mixed} and every k in 2..12 one module is built with, for each
 // permutation pi in {swap first two, swap last two, rotate left, reverse, two random} and each loop shape
-// {plain, call inside the loop, call + conditional second permutation}:
+// {plain, call inside the loop, call + conditional second permutation, call + uses in the order pi without any assignment}:
 //
 //	callee(p_0..p_{k-1}: T, n: i32) -> (T x k):   loop { [call nop]; (p_0..p_{k-1}) := (p_pi(0)..p_pi(k-1)); n--; br_if n != 0 }; return p
 //	caller_m(w_0..w_{m-1}: T, n: i32) -> (T x k, T x m) for m in {0,1,4,7,8,9,10,12,16}:
@@ -98,6 +98,34 @@ var classes = []class{
 	}},
 }
 
+func storeOf(t byte) []byte {
+	switch t {
+	case wb.I32:
+		return wb.MemArg(wasm.OpcodeI32Store, 2, 0)
+	case wb.I64:
+		return wb.MemArg(wasm.OpcodeI64Store, 3, 0)
+	case wb.F32:
+		return wb.MemArg(wasm.OpcodeF32Store, 2, 0)
+	case wb.F64:
+		return wb.MemArg(wasm.OpcodeF64Store, 3, 0)
+	}
+	return wb.Cat([]byte{wasm.OpcodeVecPrefix, byte(wasm.OpcodeVecV128Store)}, wb.U32(4), wb.U32(0))
+}
+
+func loadOf(t byte) []byte {
+	switch t {
+	case wb.I32:
+		return wb.MemArg(wasm.OpcodeI32Load, 2, 0)
+	case wb.I64:
+		return wb.MemArg(wasm.OpcodeI64Load, 3, 0)
+	case wb.F32:
+		return wb.MemArg(wasm.OpcodeF32Load, 2, 0)
+	case wb.F64:
+		return wb.MemArg(wasm.OpcodeF64Load, 3, 0)
+	}
+	return wb.Cat([]byte{wasm.OpcodeVecPrefix, byte(wasm.OpcodeVecV128Load)}, wb.U32(4), wb.U32(0))
+}
+
 func rep(k int, t byte) []byte {
 	out := make([]byte, k)
 	for i := range out {
@@ -170,7 +198,7 @@ func buildModule(ts []byte, ps [][]int, salt uint64) ([]byte, []variant) {
 	nIdx := uint32(k)
 	var vs []variant
 	for pi, p := range ps {
-		for shape := 0; shape < 3; shape++ {
+		for shape := 0; shape < 4; shape++ {
 			var b []byte
 			b = append(b, wasm.OpcodeLoop, 0x40)
 			if shape >= 1 {
@@ -186,7 +214,18 @@ func buildModule(ts []byte, ps [][]int, salt uint64) ([]byte, []variant) {
 				}
 				return c
 			}
-			b = append(b, assign(p)...)
+			if shape == 3 {
+				// no assignment at all: the values only live THROUGH the loop, but the call evicts them from their
+				// registers and they are used (hence reloaded) in the order pi, so that at the back edge they sit
+				// in other registers than the loop header expects: the allocator has to shuffle them back
+				for i := 0; i < k; i++ {
+					b = append(b, wb.I32Const(int32(1024+16*i))...)
+					b = append(b, wb.LocalGet(uint32(p[i]))...)
+					b = append(b, storeOf(ts[p[i]])...)
+				}
+			} else {
+				b = append(b, assign(p)...)
+			}
 			if shape == 2 {
 				// on even n: apply pi once more (the merge after the `if` needs its own parallel move)
 				b = append(b, wb.LocalGet(nIdx)...)
@@ -223,6 +262,23 @@ func buildModule(ts []byte, ps [][]int, salt uint64) ([]byte, []variant) {
 				name := fmt.Sprintf("caller_%d_%d_%d", pi, shape, mm)
 				m.AddFunc(wb.Func{Params: append(append([]byte{}, wts...), wb.I32), Results: append(append([]byte{}, ts...), wts...), Body: cb, Export: name})
 				v.callers = append(v.callers, name)
+				// the same caller with its live values DEFINED in the function (loaded from memory slots 16*i) rather than
+				// received as parameters: the register allocator is then free to keep them in callee-saved registers
+				var lb []byte
+				for i := 0; i < mm; i++ {
+					lb = append(lb, wb.I32Const(int32(16*i))...)
+					lb = append(lb, loadOf(wts[i])...)
+					lb = append(lb, wb.LocalSet(uint32(1+i))...)
+				}
+				for i := 0; i < k; i++ {
+					lb = append(lb, constOf(ts[i], valueOf(ts[i], i, salt))...)
+				}
+				lb = append(lb, wb.LocalGet(0)...)
+				lb = append(lb, wb.Call(callee)...)
+				for i := 0; i < mm; i++ {
+					lb = append(lb, wb.LocalGet(uint32(1+i))...)
+				}
+				m.AddFunc(wb.Func{Params: []byte{wb.I32}, Locals: wts, Results: append(append([]byte{}, ts...), wts...), Body: lb, Export: "m" + name})
 			}
 			vs = append(vs, v)
 		}
@@ -250,6 +306,9 @@ func apply(in []val, p []int, shape, n int) []val {
 			next[i] = cur[p[i]]
 		}
 		cur = next
+	}
+	if shape == 3 {
+		return cur
 	}
 	for ; n != 0; n-- {
 		step()
@@ -313,9 +372,23 @@ func main() {
 						}
 						args := append(flatten(wts, ws), uint64(n))
 						want := append(flatten(ts, wantCallee), flatten(wts, ws)...)
-						for ei, e := range engines {
-							res, err := mods[ei].ExportedFunction(cname).Call(ctx, args...)
+						for ei2 := 0; ei2 < 2*len(engines); ei2++ {
+							ei, e, viaMem := ei2/2, engines[ei2/2], ei2%2 == 1
+							var res []uint64
+							var err error
 							key := fmt.Sprintf("%s/k=%d/%s/shape=%d/m=%d/n=%d", cl.name, k, pnames[v.perm], v.shape, mm, n)
+							if viaMem {
+								key += "/values-loaded-in-caller"
+								buf := make([]byte, 16*mm+16)
+								for i := range ws {
+									binary.LittleEndian.PutUint64(buf[16*i:], ws[i][0])
+									binary.LittleEndian.PutUint64(buf[16*i+8:], ws[i][1])
+								}
+								mods[ei].Memory().Write(0, buf)
+								res, err = mods[ei].ExportedFunction("m"+cname).Call(ctx, uint64(n))
+							} else {
+								res, err = mods[ei].ExportedFunction(cname).Call(ctx, args...)
+							}
 							rp.Case(key + "/" + e.name)
 							if err != nil {
 								rp.Violate(hx.Violation{Kind: "impl-violation", Signature: "C01:permutation-loop-fails:" + e.name, What: key + ": " + err.Error(), Input: key})
